@@ -151,7 +151,8 @@ def run(ctx) -> None:
         st = _stmt_of(f.node, c)
         at = df.cfg.node_of(st).idx
         seed = c.args[0] if c.args else next((k.value for k in c.keywords if k.arg == "seed"), None)
-        name = norm_text(st.targets[0]) if isinstance(st, ast.Assign) else norm_text(c)[:30]
+        kind = (call_name(c) or "").split(".")[-1]
+        name = f"rng#{ctors.index(c)}"  # ordinal among the generators built here, whatever their constructor
         if seed is None:
             ctx.violation("R-SEEDFLOW", f"{f.qualname}:{name}", f.loc(c),
                           f"`{norm_text(c)}` constructs an unseeded generator: a fixed seed cannot reproduce the noise",
